@@ -668,7 +668,13 @@ func cmdConc(args []string) {
 	from := fs.Int("from", 0, "")
 	stressFor := fs.Duration("stress", 0, "")
 	cyc := fs.Int("cycles", 0, "")
+	probe := fs.Bool("probe", false, "")
 	fs.Parse(args)
+	if *probe {
+		b, _ := json.Marshal(isolationProbe())
+		fmt.Println(string(b))
+		return
+	}
 	if *stressFor > 0 {
 		b, _ := json.Marshal(stress(*stressFor, *seed))
 		fmt.Println(string(b))
